@@ -135,7 +135,7 @@ class RandomPolicy(BaseScheduler):
     """Arbitrary well-typed decisions (seeded): place now / in the future / on a pool
     that may not fit, leave unplaced, or cancel. Exercises every handler path."""
 
-    def __init__(self, rng, lookahead=0, retract=False, release_taskgraphs=False, cancel_prob=0.05, batch_prob=0.0, delays=None, runtimes=None, _flags=None):
+    def __init__(self, rng, lookahead=0, retract=False, release_taskgraphs=False, cancel_prob=0.05, batch_prob=0.0, delays=None, runtimes=None, profile_prob=0.0, _flags=None):
         super().__init__(
             preemptive=False,
             runtime=et(0),
@@ -152,6 +152,10 @@ class RandomPolicy(BaseScheduler):
         self._batches = {}
         self._delays = list(delays) if delays else [0, 0, 0, 1, 3]
         self._runtimes = list(runtimes) if runtimes else [0]   # simulated time one invocation takes
+        # work-profile decisions (as a model-serving policy makes them): load the profile of an offered task on a
+        # pool / worker, evict a profile this policy loaded earlier
+        self._profile_prob = profile_prob
+        self._loaded = []
 
     def schedule(self, sim_time, workload, worker_pools):
         tasks = workload.get_schedulable_tasks(
@@ -202,6 +206,28 @@ class RandomPolicy(BaseScheduler):
                         execution_strategy=strat,
                     )
                 )
+        if self._profile_prob and self._rng.random() < self._profile_prob:
+            delay = self._rng.choice(self._delays)
+            when = sim_time + et(took)   # profile decisions take effect right away (no decision is in flight when the next one is taken)
+            ripe = [k for k, x in enumerate(self._loaded) if x[3] < when]   # evict only what has been loaded before (evictions come first at one instant)
+            if ripe and self._rng.random() < 0.4:
+                prof, pool, wid, _t0 = self._loaded.pop(self._rng.choice(ripe))
+                out.append(Placement.create_evict_profile_placement(work_profile=prof, placement_time=when, worker_pool_id=pool.id, worker_id=wid))
+            else:
+                cands = [t.profile for t in tasks if len(t.profile.loading_strategies) > 0]
+                if cands:
+                    prof = self._rng.choice(cands)
+                    pool = self._rng.choice(pools)
+                    wid = self._rng.choice(pool.workers).id if self._rng.random() < 0.7 else None
+                    strat = self._rng.choice(list(prof.loading_strategies))
+                    targets = [w_ for w_ in pool.workers if wid is None or w_.id == wid]
+                    # (only where the loading strategy fits right now: a refused load raises and ends the run)
+                    if all(w_.can_accomodate_strategy(strat) for w_ in targets) and not any(
+                        q is prof and pl is pool and (w_ == wid or w_ is None or wid is None) for q, pl, w_, _t0 in self._loaded
+                    ):
+                        # loaded right away: the fit was checked against the cluster as it is now
+                        out.append(Placement.create_load_profile_placement(work_profile=prof, placement_time=sim_time + et(took), worker_pool_id=pool.id, loading_strategy=strat, worker_id=wid))
+                        self._loaded.append((prof, pool, wid, sim_time + et(took)))
         return Placements(runtime=et(took), true_runtime=et(0), placements=out)
 
 
@@ -330,6 +356,7 @@ class Run:
                 batch_prob=pol.get("batch_prob", 0.0),
                 delays=pol.get("delays"),
                 runtimes=pol.get("runtimes"),
+                profile_prob=pol.get("profile_prob", 0.0),
                 _flags=self.flags,
             )
         elif pol["name"] in PLANNERS:
@@ -388,7 +415,11 @@ class Run:
                 gi, ti = idx[p.task.id]
                 d.update(g=gi, t=ti)
             else:
-                raise NotImplementedError("profile placements are not generated by the end-to-end suite")
+                # LOAD_WORK_PROFILE / EVICT_WORK_PROFILE: the profile is named by the index the tasks carry
+                prof = p._computation
+                if id(prof) not in self.prof_ids:
+                    raise NotImplementedError("profile placement for a work profile no task of the workload uses")
+                d["profile"] = self.prof_ids[id(prof)]
             d["time"] = us(p.placement_time)
             d["pool"] = None if p.worker_pool_id is None else pool_ids.index(p.worker_pool_id)
             if p.worker_id is not None:
@@ -396,7 +427,7 @@ class Run:
                 d["worker"] = [w.id for w in pool.workers].index(p.worker_id)
             else:
                 d["worker"] = None
-            st = p.execution_strategy if kind == "place" else None
+            st = p._strategy if kind in ("place", "load") else None
             d["strat"] = None if st is None else self.strat_json(st)
             out.append(d)
         self.decisions.append({"runtime": us(placements.runtime), "placements": out})
@@ -419,7 +450,7 @@ class Run:
         pools = []
         for p in self.pools.worker_pools:
             pools.append({"name": p.name, "workers": [[[r.name, rid_back(r.id), q] for r, q in w.resources._resource_vector.items()] for w in p.workers]})
-        prof_ids = {}
+        prof_ids = self.prof_ids = {}
 
         def graph_json(tg, pristine=False):
             order = list(tg._graph.keys())
